@@ -17,8 +17,8 @@ PROP = {'gen': [],
  'technique': 'Coq proof (structural induction over expressions with path decomposition lemmas; invariant of the subset construction) '
               '+ model/implementation correspondence',
  'design_ref': 'DESIGN.md 5, 6.15',
- 'n_quick': 300,
- 'n_thorough': 6000,
+ 'n_quick': 900,
+ 'n_thorough': 12000,
  'shard': 60,
  'level': 'proof',
  'trusted_base': [KERNEL,
